@@ -67,7 +67,12 @@ OverlapClauses(e) ==
   LET a == e.args.a  b == e.args.b
       pos == a.s < b.e /\ b.s < a.e
       touch == a.s = b.e \/ a.e = b.s
-  IN [ C15_overlap_test_agrees_with_interval_arithmetic |-> OkQ(e) /\ (e.ret <=> (pos \/ (e.args.inclusive /\ touch))) ]
+      \* optional thresholds, one at a time (0 = not given): the overlap must be at least pct percent of the joint extent /
+      \* at least tthr long
+      ov == Min2(a.e, b.e) - Max2(a.s, b.s)
+      total == Max2(a.e, b.e) - Min2(a.s, b.s)
+      enough == (e.args.pct > 0 => ov * 100 >= e.args.pct * total) /\ (e.args.tthr > 0 => ov >= e.args.tthr)
+  IN [ C15_overlap_test_agrees_with_interval_arithmetic |-> OkQ(e) /\ (e.ret <=> ((pos /\ enough) \/ (e.args.inclusive /\ touch))) ]
 InvertClauses(e) ==
   [ C15_complement_of_interval_list_within_bounds |-> OkQ(e) /\ e.ret = Gaps(e.args.ivs, e.args.lo, e.args.hi) ]
 
